@@ -286,6 +286,21 @@ def _draw_bn(draw, dag, src):
   return dag.add(node, shp)
 
 
+def _stock_flavour(draw, nd):
+  """Unfold cases only: make a stock conv / BN frozen (trainable=False) or a
+  BN statistics-only (center=False, scale=False)."""
+  st = _st()
+  if nd["op"] == "bn":
+    f = draw(st.sampled_from(["stats_only", "frozen", "plain", "stats_only"]))
+    if f == "stats_only":
+      nd["center"] = nd["scale"] = False
+    elif f == "frozen":
+      nd["trainable"] = False
+  elif nd["op"] in ("conv", "dw"):
+    if draw(st.booleans()):
+      nd["trainable"] = False
+
+
 def _relu(dag, src):
   return dag.add({"name": dag.name("r"), "op": "relu", "inputs": [src]},
                  dag.shape[src])
@@ -307,6 +322,8 @@ def model_case_strategy(kind, tier):
         # stock conv (+BN) in front: unfold_model must carry their weights over
         src, _, _ = _draw_conv(draw, dag, "in", "quantize",
                                with_bn=draw(st.booleans()))
+        for nd in dag.nodes:
+          _stock_flavour(draw, nd)
       o, _, _ = _draw_conv(draw, dag, src, kind)
       if draw(st.booleans()):
         o = _relu(dag, o)
@@ -345,6 +362,17 @@ def model_case_strategy(kind, tier):
         b, _, _ = _draw_conv(draw, dag, a, kind)
         r = _relu(dag, a)
         outs = [b, r]
+    if kind == "unfold" and draw(st.booleans()):
+      # stock layer behind the folded part: frozen conv / frozen BN /
+      # statistics-only BN (no trainable weights at all)
+      n0 = len(dag.nodes)
+      if draw(st.booleans()):
+        outs[0] = _draw_bn(draw, dag, outs[0])
+      else:
+        outs[0], _, _ = _draw_conv(draw, dag, outs[0], "quantize",
+                                   with_bn=False)
+      for nd in dag.nodes[n0:]:
+        _stock_flavour(draw, nd)
     case = {"kind": kind, "input": [h, w, c], "n": draw(st.integers(1, 2)),
             "xseed": draw(st.integers(0, 2 ** 20)),
             "xscale": draw(st.sampled_from([1.0, 8.0])),
@@ -372,6 +400,8 @@ def history_case_strategy(tier):
   """One folded layer in a one-layer functional model + a list of steps run
   on that SAME instance.  Observation steps: call, gfw (get_folded_weights),
   unfold (unfold_model), save_qweights (model_save_quantized_weights);
+  populate = populate_bias_quantizer_from_accumulator(model,
+  [quantized_bits(8,0,1)]);
   mutation steps: set_weights (all parameters incl. BN statistics, iteration
   unchanged), assign (one variable).  The oracle adds call+gfw+unfold at the
   end."""
@@ -393,7 +423,7 @@ def history_case_strategy(tier):
     for _ in range(nsteps):
       op = draw(st.sampled_from(["gfw", "unfold", "call", "set_weights",
                                  "assign", "assign", "set_weights", "gfw",
-                                 "save_qweights"]))
+                                 "save_qweights", "populate"]))
       if op == "set_weights":
         steps.append({"op": op, "wseed": draw(st.integers(0, 2 ** 20)),
                       "kscale": draw(st.sampled_from([0.05, 0.5, 2.0])),
@@ -408,6 +438,16 @@ def history_case_strategy(tier):
         steps.append(stp)
       else:
         steps.append({"op": op})
+    if draw(st.booleans()):
+      # populate_bias_quantizer_from_accumulator on a layer created without
+      # bias quantizer (needs a quantized kernel), followed by observations
+      if node["kq"] is None:
+        node["kq"] = KQ[draw(st.sampled_from(
+            ["fixed4", "fixed8", "auto_po2", "auto", "ternary", "po2"]))]
+      node["bq"] = None
+      pos = draw(st.integers(0, len(steps)))
+      steps.insert(pos, {"op": "populate"})
+      steps.insert(pos + 1, {"op": draw(st.sampled_from(["call", "unfold"]))})
     return {"kind": "history", "input": [h, w, cin],
             "n": draw(st.integers(1, 2)),
             "xseed": draw(st.integers(0, 2 ** 20)),
@@ -425,7 +465,8 @@ def fixed_history_cases():
   idx = 0
   for cls in ("conv", "dw"):
     for kqn, bqn, mode in (("fixed4", "fixed8", MODES[0]),
-                           ("none", "none", MODES[1])):
+                           ("none", "none", MODES[1]),
+                           ("fixed8", "populate", MODES[1])):
       outc = 3 if cls == "conv" else 2
       cin = 2
       cout = cout_of(cls, cin, outc)
@@ -435,7 +476,7 @@ def fixed_history_cases():
                        "pad": "same", "out": outc},
               "act": None, "mode": mode, "use_bias": True, "center": True,
               "scale": True, "eps": 1e-3, "efd": None, "kq": KQ[kqn],
-              "bq": BQ[bqn],
+              "bq": BQ.get(bqn),
               "bn": {"gamma": rot(GAMMA, 5), "beta": rot(BETA, 1),
                      "mean": rot(MEAN, 1), "var": rot(VAR, 3)},
               "wseed": 50 + idx, "kscale": 0.5}
@@ -456,6 +497,13 @@ def fixed_history_cases():
           {"op": "gfw"},
           {"op": "assign", "what": "bias", "seed": 91 + idx},
       ]
+      if bqn == "populate":
+        # layer created without bias quantizer; the accumulator-derived one
+        # is populated, then everything is observed, re-parameterised and
+        # populated again (must then keep the quantizer)
+        steps = [{"op": "call"}, {"op": "populate"}, {"op": "call"},
+                 {"op": "gfw"}, {"op": "unfold"}, steps[3], {"op": "call"},
+                 {"op": "populate"}, {"op": "unfold"}]
       out.append({"kind": "history", "input": [4, 4, cin], "n": 2,
                   "xseed": 21 + idx, "xscale": 1.0, "nodes": [node],
                   "outputs": ["f1"], "steps": steps})
@@ -524,7 +572,8 @@ def fixed_model_cases():
   out = []
   for m1, m2 in ((MODES[0], MODES[1]), (MODES[1], MODES[0])):
     out.append(dict(head, kind="unfold", outputs=["f3"], nodes=[
-        cv("c0", "conv", "in", 2, wseed=2), bn("b0", "c0", eps=1e-2),
+        dict(cv("c0", "conv", "in", 2, wseed=2), trainable=False),
+        bn("b0", "c0", eps=1e-2, center=False, scale=False),
         fl("f1", "fconv", "b0", 3, m1, KQ["fixed4"], BQ["fixed8"], wseed=3),
         relu("r2", "f1"),
         fl("f3", "fdw", "r2", 2, m2, KQ["fixed8"], None, use_bias=False,
@@ -676,11 +725,15 @@ def build_model(case, override=None):
       else:
         lyr = L.DepthwiseConv2D(depth_multiplier=g["out"], **kw)
       t[name] = lyr(src[0])
+      if nd.get("trainable") is False:
+        lyr.trainable = False
       todo.append((lyr, [kernel] + ([bias] if bias is not None else [])))
     elif op == "bn":
       lyr = L.BatchNormalization(center=nd["center"], scale=nd["scale"],
                                  epsilon=nd["eps"], name=name)
       t[name] = lyr(src[0])
+      if nd.get("trainable") is False:
+        lyr.trainable = False
       gamma, beta, mean, var = bn_tensors(nd)
       todo.append((lyr, [v for v in (gamma, beta) if v is not None] +
                    [mean, var]))
